@@ -325,6 +325,33 @@ Theorem C15_consts :
 Proof. exact c15_consts_ok. Qed.
 Print Assumptions C15_consts.
 
+(* Alteration of the challenge response alone: matrix, seed and x untouched,
+   the tag (t0, t1) replaced by ANY other pair of naturals is rejected - the
+   sender's verdict is the full equality of BOTH 128-bit halves of the 256-bit
+   tag (C15_accept_iff states the same with N equalities of join128 pairs). *)
+Theorem C15_tag_alteration_rejected :
+  forall g0 g1 chi_of bl b0 b1 seed pos delta, (delta < 2^128)%N ->
+  forall tr res pos', receiver_run g0 g1 chi_of bl b0 b1 seed pos = (tr, res, pos') ->
+  forall t0' t1',
+    (t0', t1') <> (tr_t0 tr, tr_t1 tr) ->
+    sender_run (sender_streams g0 g1 delta) delta chi_of
+               (tamper noerr noerr (tr_seed tr) (tr_x tr) t0' t1' tr) (length bl) pos = Reject.
+Proof. exact tag_alteration_rejected. Qed.
+Print Assumptions C15_tag_alteration_rejected.
+
+(* in particular the "mirrored" masks: the same pattern in both 64-bit halves
+   of one tag label (bit k together with bit k+64), on t0 or on t1 *)
+Theorem C15_mirrored_tag_alteration_rejected :
+  forall g0 g1 chi_of bl b0 b1 seed pos delta, (delta < 2^128)%N ->
+  forall tr res pos', receiver_run g0 g1 chi_of bl b0 b1 seed pos = (tr, res, pos') ->
+  forall k, (k < 64)%N ->
+    sender_run (sender_streams g0 g1 delta) delta chi_of
+               (tamper noerr noerr (tr_seed tr) (tr_x tr) (N.lxor (tr_t0 tr) (mirrored (2^k))) (tr_t1 tr) tr) (length bl) pos = Reject /\
+    sender_run (sender_streams g0 g1 delta) delta chi_of
+               (tamper noerr noerr (tr_seed tr) (tr_x tr) (tr_t0 tr) (N.lxor (tr_t1 tr) (mirrored (2^k))) tr) (length bl) pos = Reject.
+Proof. exact mirrored_tag_alteration_rejected. Qed.
+Print Assumptions C15_mirrored_tag_alteration_rejected.
+
 (* STATE INVENTORY (finite obligation on the model regenerated from the source, checked by
    computation).  The struct fields and package-level variables of the Go packages this
    property is anchored in — ot — as emitted from /repo's current
